@@ -298,6 +298,18 @@ class Ctx:
                 "props/%s.v" % self.prop, failing))
         self.proof_ok = ok
         self.log("proof obligations: %d theorems, accepted=%s" % (len(thms), ok))
+        if ok and self.thorough() and not self.replay:
+            # independent re-check of the compiled property file and everything it depends on
+            rc, out = sh("timeout 1500 coqchk -o -silent -Q . LJT LJT.props.%s" % self.prop, cwd=COQ)
+            tail = out[-3000:]
+            self.cov["coqchk"] = {"rc": rc, "output_tail": tail}
+            self.log("coqchk rc=%d" % rc)
+            if rc != 0:
+                self.obligations.append(("coqchk", False))
+                self.broken_tie("coqchk", "independent checker rejected props/%s.vo: %s" % (self.prop, tail[-300:]))
+            else:
+                self.obligations.append(("coqchk", True))
+                self.trusted.append("coqchk -o (independent checker) accepted props/%s.vo and its dependencies; axiom list in coverage.coqchk" % self.prop)
         return ok
 
     def model_driver(self, timeout=600):
